@@ -73,7 +73,10 @@ pub struct Sc {
 
 pub struct C12;
 
-const DIST_NAMES: [&str; 16] = [
+const DIST_NAMES: [&str; 19] = [
+    "caf\u{f8e9}-1.0.tgz",
+    "l\u{f8e9}gacy/f.tgz",
+    "l\u{f8e9}gacy/caf\u{f8e9}.bin",
     "f.tgz",
     "a/f.tgz",
     "b/a/f.tgz",
@@ -91,7 +94,8 @@ const DIST_NAMES: [&str; 16] = [
     "x/patch-2.7.6.tar.xz",
     "README",
 ];
-const PATCH_NAMES: [&str; 8] = [
+const PATCH_NAMES: [&str; 9] = [
+    "patch-caf\u{f8e9}",
     "patch-aa",
     "patch-Makefile",
     "patch-src_main.c",
@@ -156,21 +160,25 @@ struct Record {
 }
 
 fn render_distinfo(files: &[FileSpec], recs: &[Record]) -> Vec<u8> {
-    let mut s = String::from("$NetBSD: distinfo,v 1.1 2024/01/01 00:00:00 sim Exp $\n\n");
+    let mut s: Vec<u8> = b"$NetBSD: distinfo,v 1.1 2024/01/01 00:00:00 sim Exp $\n\n".to_vec();
     for pass in 0..2 {
         for (f, r) in files.iter().zip(recs.iter()) {
             if model_is_patch(&f.name) != (pass == 1) {
                 continue;
             }
             for (a, h) in &r.checksums {
-                s.push_str(&format!("{} ({}) = {}\n", ALG_NAMES[*a], f.name, h));
+                s.extend_from_slice(format!("{} (", ALG_NAMES[*a]).as_bytes());
+                s.extend_from_slice(&raw(&f.name));
+                s.extend_from_slice(format!(") = {}\n", h).as_bytes());
             }
             if let Some(n) = r.size {
-                s.push_str(&format!("Size ({}) = {} bytes\n", f.name, n));
+                s.extend_from_slice(b"Size (");
+                s.extend_from_slice(&raw(&f.name));
+                s.extend_from_slice(format!(") = {} bytes\n", n).as_bytes());
             }
         }
     }
-    s.into_bytes()
+    s
 }
 
 fn model_digest(name: &str, alg: usize, bytes: &[u8]) -> String {
@@ -566,8 +574,47 @@ fn shape<T: std::fmt::Debug>(r: &Result<T, DistinfoError>) -> String {
     }
 }
 
-fn rel(name: &str) -> String {
-    format!("d/{}", name)
+/// Model names are strings; the private-use character U+F8E9 stands for the
+/// single raw byte 0xE9 (Latin-1 e-acute), so that names that are not valid
+/// UTF-8 can be generated, stored and looked up.
+fn raw(name: &str) -> Vec<u8> {
+    let mut out = Vec::with_capacity(name.len());
+    for ch in name.chars() {
+        if ch == '\u{f8e9}' {
+            out.push(0xe9);
+        } else {
+            let mut b = [0u8; 4];
+            out.extend_from_slice(ch.encode_utf8(&mut b).as_bytes());
+        }
+    }
+    out
+}
+
+fn os(name: &str) -> std::ffi::OsString {
+    use std::os::unix::ffi::OsStringExt;
+    std::ffi::OsString::from_vec(raw(name))
+}
+
+fn has_raw(name: &str) -> bool {
+    name.contains('\u{f8e9}')
+}
+
+/// Absolute path of a stored file inside the scratch tree.
+fn stored(sd: &SimDisk, name: &str) -> std::path::PathBuf {
+    sd.root().join("d").join(os(name))
+}
+
+/// The same path as the model sees it (a plain string, U+F8E9 kept).
+fn stored_model(sd: &SimDisk, name: &str) -> String {
+    format!("{}/d/{}", sd.root().display(), name)
+}
+
+fn store(sd: &SimDisk, name: &str, data: &[u8]) {
+    let p = stored(sd, name);
+    if let Some(parent) = p.parent() {
+        std::fs::create_dir_all(parent).unwrap_or_else(|e| panic!("SIM-HARNESS: mkdir: {}", e));
+    }
+    std::fs::write(&p, data).unwrap_or_else(|e| panic!("SIM-HARNESS: write: {}", e));
 }
 
 impl Property for C12 {
@@ -594,7 +641,7 @@ impl Property for C12 {
             let name = if rng.chance(2, 5) {
                 rng.pick(&PATCH_NAMES).to_string()
             } else if collide {
-                rng.pick(&DIST_NAMES[..4]).to_string()
+                rng.pick(&["f.tgz", "a/f.tgz", "b/a/f.tgz", "c/b/a/f.tgz", "l\u{f8e9}gacy/f.tgz"]).to_string()
             } else {
                 rng.pick(&DIST_NAMES).to_string()
             };
@@ -636,12 +683,17 @@ impl Property for C12 {
             let prefix = *rng.pick(&["", "/usr/pkgsrc/distfiles/", "x/", "/", "a/", "b/a/", "../../distfiles/", "sub/"]);
             lookups.push(format!("{}{}", prefix, base));
         }
+        let via_api = rng.chance(1, 2);
+        // as_bytes() writes names through a lossy conversion (that is C10's
+        // subject, not C12's): records with names that are not UTF-8 are
+        // verified on the inserted Distinfo itself
+        let direct = rng.chance(1, 2) || files.iter().any(|f| has_raw(&f.name));
         Sc {
             files,
-            via_api: rng.chance(1, 2),
+            via_api,
             faults,
             lookups,
-            direct: rng.chance(1, 2),
+            direct,
         }
     }
 
@@ -660,7 +712,10 @@ impl Property for C12 {
         let sd = SimDisk::new();
         let mut disk: Vec<Option<Vec<u8>>> = sc.files.iter().map(|f| Some(f.content.clone())).collect();
         for f in &sc.files {
-            sd.write(&rel(&f.name), &f.content);
+            if has_raw(&f.name) {
+                ctx.probe("name-not-utf8");
+            }
+            store(&sd, &f.name, &f.content);
             ctx.step("store", f.content.len() as u64, model_is_patch(&f.name) as u64);
         }
         // the record, as the model sees it
@@ -680,12 +735,13 @@ impl Property for C12 {
             // the entries inserted so far (shortest recorded trailing sub-path)
             let lookup_all = |di: &Distinfo, so_far: &[String], ctx: &mut Ctx| -> Outcome {
                 for f in &sc.files {
-                    let ps = sd.path(&rel(&f.name)).to_string_lossy().to_string();
+                    let ps = stored_model(&sd, &f.name);
+                    let pp = stored(&sd, &f.name);
                     let want = model_find(so_far, &ps);
                     ctx.step("lookup-during-build", so_far.len() as u64, 0);
-                    match (want, di.find_entry(&ps)) {
+                    match (want, di.find_entry(&pp)) {
                         (Some(w), Ok(e)) => ensure!(
-                            e.filename == Path::new(w),
+                            e.filename == Path::new(&os(w)),
                             "lookup-resolved-wrong-entry",
                             "after {} inserts find_entry({}) resolved to {:?}, the shortest recorded trailing sub-path is {:?}",
                             so_far.len(),
@@ -709,7 +765,7 @@ impl Property for C12 {
             let mut so_far: Vec<String> = Vec::new();
             lookup_all(&di, &so_far, ctx)?;
             for (f, r) in sc.files.iter().zip(recs.iter()) {
-                let p = sd.path(&rel(&f.name));
+                let p = stored(&sd, &f.name);
                 let mut cks = Vec::new();
                 for (a, want) in &r.checksums {
                     match Distinfo::calculate_checksum(&p, ALGS[*a]) {
@@ -746,7 +802,7 @@ impl Property for C12 {
                 } else {
                     None
                 };
-                let e = Entry::new(&f.name, &p, cks, size);
+                let e = Entry::new(os(&f.name), &p, cks, size);
                 ensure!(
                     (e.filetype == EntryType::Patchfile) == model_is_patch(&f.name),
                     "file-kind",
@@ -782,16 +838,18 @@ impl Property for C12 {
                 // make the simulated disk and the record in memory reflect the model
                 for (i, fsp) in sc.files.iter().enumerate() {
                     match &disk[i] {
-                        Some(c) => sd.write(&rel(&fsp.name), c),
-                        None => sd.remove(&rel(&fsp.name)),
+                        Some(c) => store(&sd, &fsp.name, c),
+                        None => {
+                            let _ = std::fs::remove_file(stored(&sd, &fsp.name));
+                        }
                     }
                 }
                 distinfo = Distinfo::from_bytes(&render_distinfo(&sc.files, &recs));
             }
             // ---- verification round
             for (i, fsp) in sc.files.iter().enumerate() {
-                let p = sd.path(&rel(&fsp.name));
-                let ps = p.to_string_lossy().to_string();
+                let p = stored(&sd, &fsp.name);
+                let ps = stored_model(&sd, &fsp.name);
                 let resolved = model_find(&recorded, &ps);
                 let ri = match resolved {
                     Some(r) => recorded.iter().position(|x| x == r).unwrap(),
@@ -809,7 +867,7 @@ impl Property for C12 {
                 // find_entry resolves to the shortest recorded trailing sub-path
                 match distinfo.find_entry(&p) {
                     Ok(e) => ensure!(
-                        e.filename == Path::new(rname),
+                        e.filename == Path::new(&os(rname)),
                         "lookup-resolved-wrong-entry",
                         "find_entry({}) resolved to {:?}, the shortest recorded trailing sub-path is {:?}",
                         fsp.name,
@@ -1114,14 +1172,15 @@ impl Property for C12 {
             // ---- pure lookups
             for l in &sc.lookups {
                 let want = model_find(&recorded, l);
-                let got = distinfo.find_entry(l);
+                let lo = os(l);
+                let got = distinfo.find_entry(&lo);
                 match (want, got) {
                     (Some(w), Ok(e)) => {
                         if recorded.iter().filter(|r| comps(l).ends_with(&comps(r)) && model_is_patch(r) == model_is_patch(w)).count() >= 2 {
                             ctx.probe("shortest-tail-among-several");
                         }
                         ensure!(
-                            e.filename == Path::new(w),
+                            e.filename == Path::new(&os(w)),
                             "lookup-resolved-wrong-entry",
                             "find_entry({:?}) resolved to {:?}, the shortest recorded trailing sub-path is {:?}",
                             l,
@@ -1139,7 +1198,7 @@ impl Property for C12 {
                     (None, Err(DistinfoError::NotFound)) => {
                         ctx.probe("verdict-not-found");
                         // the verify functions agree
-                        match distinfo.verify_size(l) {
+                        match distinfo.verify_size(&lo) {
                             Err(DistinfoError::NotFound) => {}
                             other => fail!(
                                 "unrecorded-path-not-notfound",
@@ -1148,7 +1207,7 @@ impl Property for C12 {
                                 other.map_err(|e| e.to_string())
                             ),
                         }
-                        match distinfo.verify_checksum(l, ALGS[3]) {
+                        match distinfo.verify_checksum(&lo, ALGS[3]) {
                             Err(DistinfoError::NotFound) => {}
                             other => fail!(
                                 "unrecorded-path-not-notfound",
@@ -1157,7 +1216,7 @@ impl Property for C12 {
                                 other.map_err(|e| e.to_string())
                             ),
                         }
-                        let v = distinfo.verify_checksums(l);
+                        let v = distinfo.verify_checksums(&lo);
                         ensure!(
                             v.len() == 1 && matches!(v[0], Err(DistinfoError::NotFound)),
                             "unrecorded-path-not-notfound",
@@ -1182,47 +1241,52 @@ impl Property for C12 {
         Ok(())
     }
 
-    fn shrink(&self, sc: &Sc) -> Vec<Sc> {
-        let mut out = Vec::new();
+    fn shrink(&self, sc: &Sc, emit: &mut dyn FnMut(Sc) -> bool) {
+        macro_rules! push {
+            ($e:expr) => {
+                if emit($e) {
+                    return;
+                }
+            };
+        }
         for f in shrink_vec(&sc.faults) {
-            out.push(Sc { faults: f, ..sc.clone() });
+            push!(Sc { faults: f, ..sc.clone() });
         }
         for l in shrink_vec(&sc.lookups) {
-            out.push(Sc { lookups: l, ..sc.clone() });
+            push!(Sc { lookups: l, ..sc.clone() });
         }
         if sc.files.len() > 1 {
             for i in 0..sc.files.len() {
                 let mut s = sc.clone();
                 s.files.remove(i);
                 // fault file indices are taken modulo the number of files
-                out.push(s);
+                push!(s);
             }
         }
         if sc.via_api {
-            out.push(Sc { via_api: false, ..sc.clone() });
+            push!(Sc { via_api: false, ..sc.clone() });
         }
         for (i, f) in sc.files.iter().enumerate() {
             for c in shrink_vec(&f.content) {
                 let mut s = sc.clone();
                 s.files[i].content = c;
-                out.push(s);
+                push!(s);
             }
             if f.algs.len() > 1 {
                 for a in shrink_vec(&f.algs) {
                     if !a.is_empty() {
                         let mut s = sc.clone();
                         s.files[i].algs = a;
-                        out.push(s);
+                        push!(s);
                     }
                 }
             }
             if f.size {
                 let mut s = sc.clone();
                 s.files[i].size = false;
-                out.push(s);
+                push!(s);
             }
         }
-        out
     }
 
     fn sweep(&self, sc: &Sc, run: u64, tier: Tier) -> Vec<Sc> {
@@ -1302,6 +1366,7 @@ impl Property for C12 {
             "lookup-interleaved-with-insert",
             "verified-with-the-inserted-distinfo-itself",
             "entry-verify-under-alias-name",
+            "name-not-utf8",
         ]
     }
 }
